@@ -59,7 +59,15 @@ func firstUse(cx *lib.Ctx) {
 					"b": cty.NumberIntVal(int64(100*g + e)),
 				}))
 			}
-			ctxs[g] = &hcl.EvalContext{Variables: map[string]cty.Value{"v": cty.TupleVal(objs), "w": cty.StringVal(fmt.Sprintf("w%d", g))}}
+			v := cty.TupleVal(objs)
+			switch {
+			case g%4 == 3:
+				// a known, empty source: the splat has no item to bind, it only clears the symbol
+				v = cty.EmptyTupleVal
+			case g == 5:
+				v = cty.ListValEmpty(cty.Object(map[string]cty.Type{"a": cty.String, "b": cty.Number}))
+			}
+			ctxs[g] = &hcl.EvalContext{Variables: map[string]cty.Value{"v": v, "w": cty.StringVal(fmt.Sprintf("w%d", g))}}
 		}
 		asJSON := i%3 == 2
 		// the calls: evaluate everything (native: one expression; JSON: every attribute, variables first for odd goroutines)
